@@ -345,6 +345,16 @@ func (vc *VC) mergeStates(sts []*State) *State {
 			m.heap[c] = vc.define("H."+c, srt, t)
 		}
 	}
+	for _, s := range sts {
+		for c := range s.dirty {
+			if _, mat := m.heap[c]; !mat {
+				if m.dirty == nil {
+					m.dirty = map[string]bool{}
+				}
+				m.dirty[c] = true
+			}
+		}
+	}
 	a := sts[len(sts)-1].alloc
 	for i := len(sts) - 2; i >= 0; i-- {
 		a = ite(sts[i].pc, sts[i].alloc, a)
@@ -754,10 +764,20 @@ func (vc *VC) enterLoop(li *loopInfo, ins []*State, preds []*ssa.BasicBlock) *St
 		}
 		sort.Strings(cl)
 		for _, c := range cl {
+			if _, known := vc.compSort[c]; !known {
+				// written (by an effect-summarised call) but never read so far: unknown from here on
+				if st.dirty == nil {
+					st.dirty = map[string]bool{}
+				}
+				st.dirty[c] = true
+				continue
+			}
 			vc.heapHavoc(st, c)
 		}
 		for _, c := range cl {
-			vc.heapTypingAxioms(st, c)
+			if _, known := vc.compSort[c]; known {
+				vc.heapTypingAxioms(st, c)
+			}
 		}
 		na := vc.fresh("alloc")
 		vc.declare(na, "Int")
@@ -797,6 +817,22 @@ func (vc *VC) heapTypingAxioms(st *State, comp string) {
 	}
 	h := st.heap[comp]
 	var body func(x Term) Term
+	// object and array ids stored in the ENTRY heap denote objects that existed at entry
+	if strings.HasSuffix(h, ".e0") && !strings.Contains(h, "!") {
+		isID := meta.part == "arr" || meta.part == "val" ||
+			(meta.part == "" && meta.t != nil && (kindOf(meta.t) == KPtr || kindOf(meta.t) == KMap || kindOf(meta.t) == KChan))
+		if isID {
+			vc.ensureRt()
+			switch meta.kind {
+			case LField, LDeref:
+				vc.axiom(fmt.Sprintf("(forall ((o Int)) (! (< (rt (select %s o)) alloc0) :pattern ((select %s o))))", h, h))
+			case LElem:
+				vc.axiom(fmt.Sprintf("(forall ((a Int) (i Int)) (! (< (rt (select (select %s a) i)) alloc0) :pattern ((select (select %s a) i))))", h, h))
+			case LGlobal:
+				vc.axiom(fmt.Sprintf("(< (rt %s) alloc0)", h))
+			}
+		}
+	}
 	switch meta.part {
 	case "":
 		if meta.t == nil || kindOf(meta.t) != KInt {
@@ -814,7 +850,7 @@ func (vc *VC) heapTypingAxioms(st *State, comp string) {
 			return
 		}
 		body = func(x Term) Term { return app("<=", "0", x) }
-	case "off", "cap", "arr":
+	case "off", "cap":
 		body = func(x Term) Term { return app("<=", "0", x) }
 	default:
 		return
